@@ -77,11 +77,19 @@ def s_nodes(circuit):
     return list(circuit.io_nodes) + [n for n in circuit.nodes if is_dff(n.kind)] + [n for n in circuit.nodes if is_latch(n.kind)]
 
 
+class Alg2:
+    """2-valued algebra on bit masks / bit-vectors."""
+    def __init__(self, zero, ones): self.zero, self.ones = zero, ones
+    def inv(self, v): return v ^ self.ones
+    def prim(self, kind, ins): return prim(kind, ins, self.zero, self.ones)
+
+
 class Ref2:
     """Gate-by-gate evaluation of a Circuit object graph.  assign: {s_node position: value} for ports without
     driver and for state elements.  cut: optional {line index: value} (line driven with the given value, C16)."""
 
-    def __init__(self, circuit, assign, zero, ones, cut=None, driven_ports_cut=False):
+    def __init__(self, circuit, assign, zero, ones, cut=None, driven_ports_cut=False, alg=None):
+        self.alg = alg or Alg2(zero, ones)
         self.c = circuit
         self.sn = s_nodes(circuit)
         self.pos = {id(n): i for i, n in enumerate(self.sn)}
@@ -106,7 +114,7 @@ class Ref2:
     def out(self, n, pin):
         if is_state(n.kind):
             s = self.assign[self.pos[id(n)]]
-            return (s ^ self.ones) if (is_dff(n.kind) and pin == 1) else s
+            return self.alg.inv(s) if (is_dff(n.kind) and pin == 1) else s
         if id(n) in self.pos:
             has_driver = len(n.ins) > 0 and n.ins[0] is not None
             if not has_driver or self.driven_ports_cut:
@@ -114,7 +122,7 @@ class Ref2:
             return self.line(n.ins[0])                      # a driven port passes its driver's value on
         if n.kind == '__fork__':
             return self.line(n.ins[0]) if len(n.ins) > 0 else self.zero
-        return prim(n.kind, [self.line(l) if l is not None else None for l in n.ins], self.zero, self.ones)
+        return self.alg.prim(n.kind, [self.line(l) if l is not None else None for l in n.ins])
 
     def captured(self):
         """{s_node position: value at the node's input 0} for every port/state element that has an input."""
